@@ -19,16 +19,19 @@ PROP = 'C10'
 LEVEL = 'exploration'
 ENGINE = 'E1'
 TECHNIQUE = 'model checking: bounded-exhaustive enumeration of input permutations, outlier and zero-weight placements, thresholds and iteration limits against a re-implementation of the documented fit/reject/refit loop on dense least squares'
-LEVEL_TEXT = ('all 5040 orders of a 7-point data set (and all adjacent transpositions, rotations and the reversal of a 12-point one) for a menu of configurations; '
+LEVEL_TEXT = ('all 5040 orders of a 7-point data set (and all adjacent transpositions, rotations and the reversal of 12-point sets, one of them with tied abscissae, and of a 16-point set with a coverage hole) for a menu of configurations; '
               'all placements of 0..2 outliers of +-6 and +-50 sigma x all sets of <=2 non-positive weights x orders 2..4 x knot options x thresholds x maxiter 0,1,2,10 '
-              'are run through iterfit and compared, curve and mask, with the documented procedure carried out by numpy.linalg.lstsq on an own Cox-de Boor basis')
-LEVEL_NOTE = ('holds for the enumerated data sets only (distinct abscissae, float64, grow=0, no maxrej/groupbadpix, 1-D); cases where a residual lies within 1e-6 sigma of a '
+              'are run through iterfit and compared, curve and mask, with the documented procedure carried out by numpy.linalg.lstsq on an own Cox-de Boor basis; '
+              'knot menus include intervals holding exactly one point; on the data set with a hole the returned curve is compared with dense least squares on the breakpoints that survive')
+LEVEL_NOTE = ('holds for the enumerated data sets only (float64, grow=0, no maxrej/groupbadpix, 1-D); cases where a residual lies within 1e-6 sigma of a '
               'threshold or where rejection leaves a rank-deficient/ill-conditioned (cond>1e4) problem are skipped and counted; where "maxiter" is ambiguous '
               '(number of fits maxiter or maxiter+1, mask before or after the last rejection pass) every reading is accepted; trusted: mc/props/_bsp.py, numpy')
 RULE = ('case = one iterfit call: (data set, order, knot option, non-positive-weight set, outlier placement+magnitudes, weight pattern, upper, lower, maxiter, input permutation). '
-        'Non-trivial: part P when the reference loop rejects at least one point or a weight is non-positive; part O when the permutation is not the identity; part W always. '
+        'Non-trivial: part P when the reference loop rejects at least one point or a weight is non-positive; part O when the permutation is not the identity; parts W and G (coverage hole) always. '
         'Distinct = distinct case tuples.')
-ASSUMPTIONS = ['abscissae are distinct (ties make "the same point" ambiguous under permutation); at least one positive inverse variance (otherwise iterfit raises ValueError by design)',
+ASSUMPTIONS = ['tied abscissae are included (one 12-point set): the curve is still unique and the mask is compared per point identity; at least one positive inverse variance (otherwise iterfit raises ValueError by design)',
+               'coverage hole (part G): decidable clauses only - mask False at invvar<=0, permutation invariance, curve == dense weighted LSQ on the surviving breakpoints (sset.mask) for the returned mask or a predecessor mask whose rejection pass yields it; runs that stop at the iteration limit right after a failed fit (status codes observed through a pass-through wrapper of bspline.fit) and runs whose surviving-knot problem is rank deficient are skipped and counted',
+               'curve tolerances (1e-9 + 1e-13*cond^2)*scale against the oracle (cond <= 1e4), 1e-6*scale between two pydl runs that differ only in input order',
                'knots are taken from the returned object (their placement is C08); the reference fits on exactly those knots',
                'rejection decisions closer than 1e-6 sigma to a threshold are don\'t-care (skipped); reference fits with cond > 1e4 or rank deficiency are skipped (failure paths belong to C09)',
                'documented procedure: fit with invvar*mask; reject unrejected points with (y-fit)*sqrt(invvar) > upper or < -lower; rejected points stay rejected; '
@@ -38,17 +41,28 @@ ASSUMPTIONS = ['abscissae are distinct (ties make "the same point" ambiguous und
 BAND = 1e-6
 COND_MAX = 1e4
 X7 = [0.0, 1.0, 2.5, 3.0, 4.5, 5.0, 6.0]
-NOISE = [0.3, -0.5, 0.2, -0.1, 0.4, -0.3, 0.1, -0.2, 0.5, -0.4, 0.15, -0.25]
+NOISE = [0.3, -0.5, 0.2, -0.1, 0.4, -0.3, 0.1, -0.2, 0.5, -0.4, 0.15, -0.25, 0.35, -0.15, 0.05, -0.45]
+TIE12 = [0.0, 0.0, 1.0, 2.0, 2.0, 3.0, 4.0, 4.0, 5.0, 6.0, 6.0, 7.0]      # tie groups (0,1) (3,4) (6,7) (9,10)
+GAP16 = [float(i) for i in range(8)] + [20.0 + i for i in range(8)]       # a hole of 13 units between x=7 and x=20
 
 
 # ------------------------------------------------------------------ data
 def make_data(case):
     n = case['n']
-    if n == 7:
+    xset = case.get('xset')
+    if xset == 'tie':
+        x = np.array(TIE12)
+    elif xset == 'gap':
+        x = np.array(GAP16)
+    elif n == 7:
         x = np.array(X7)
     else:
         x = np.arange(n, dtype=np.float64) + 0.25 * (np.arange(n) % 3 == 1)
-    y = 1.0 + 0.5 * x - 0.05 * x * x + np.array(NOISE[:n])
+    assert len(x) == n
+    if xset == 'gap':
+        y = 1.0 + 0.5 * x - 0.01 * x * x + np.array(NOISE[:n])
+    else:
+        y = 1.0 + 0.5 * x - 0.05 * x * x + np.array(NOISE[:n])
     w = np.ones(n)
     if case.get('ivpat', 0) == 1:
         w = np.array([(1.0, 4.0)[i % 2] for i in range(n)])
@@ -113,10 +127,12 @@ def reference_loop(t, k, x, y, w, upper, lower, maxfits):
     mask = w > 0
     fits, masks = [], [mask.copy()]
     sq = np.sqrt(np.where(w > 0, w, 0.0))
+    reference_loop.maxcond = 1.0
     for it in range(maxfits):
         c, rank, cond = _bsp.wlsq(A, y, np.where(mask, w, 0.0))
         if rank < A.shape[1] or not cond <= COND_MAX:
             return fits, masks, None, 'ill-posed'
+        reference_loop.maxcond = max(reference_loop.maxcond, cond)
         fits.append(c)
         r = (y - A.dot(c)) * sq
         live = mask
@@ -175,7 +191,7 @@ def check_procedure(case):
         return bad, 'bad:not-evaluable', True, None
     nfit = len(fits)
     scale = max(1.0, float(np.max(np.abs(y[w > 0]))))
-    tol = 1e-8 * scale
+    tol = (1e-9 + 1e-13 * reference_loop.maxcond ** 2) * scale      # normal equations lose cond^2; cond <= 1e4 by construction
 
     def same_curve(j):
         return bool(np.all(np.abs(got - B.dot(fits[j])) <= tol))
@@ -231,13 +247,112 @@ def check_order(case, perm, base=None):
     if m1.shape != m0_shape(base) or not np.array_equal(m1, base[2][p]):
         bad.append(('iterfit:order-dependence:mask-not-permuted-with-input', 'perm %s mask(sorted) %s mask(perm) %s'
                     % (list(perm), base[2].astype(int).tolist(), np.asarray(m1).astype(int).tolist())))
-    if not np.all(np.abs(c1 - base[1]) <= 1e-9 * scale):
+    if not np.all(np.abs(c1 - base[1]) <= 1e-6 * scale):      # both sides are pydl (summation order differs; cond <= 1e4 by the gate)
         bad.append(('iterfit:order-dependence:curve', 'perm %s max diff %.3g' % (list(perm), np.max(np.abs(c1 - base[1])))))
     if np.any(np.asarray(m1)[w[p] <= 0]):
         bad.append(('iterfit:mask-true-at-nonpositive-invvar', 'perm %s' % (list(perm),)))
     if modified:
         bad.append(('iterfit:input-modified', ''))
     return bad, base
+
+
+def _reject(A, c, y, w, mask, upper, lower):
+    r = (y - A.dot(c)) * np.sqrt(np.where(w > 0, w, 0.0))
+    near = bool(np.any(mask & ((np.abs(r - upper) < BAND) | (np.abs(r + lower) < BAND))))
+    return mask & ~(r > upper) & ~(r < -lower), near
+
+
+@_bsp.guarded(lambda bad: (bad, 'bad:check-exception', True, None))
+def check_gap(case):
+    """Data with a coverage hole: the first fit cannot succeed, breakpoints are dropped, iterfit refits.  What stays decidable:
+    mask False at invvar<=0; the returned curve is the weighted least-squares spline ON THE SURVIVING BREAKPOINTS for the
+    returned mask - or for a predecessor mask whose rejection pass yields the returned one (most permissive reading).
+    -> (bad, outcome, nontrivial, skip_reason)"""
+    import pydl.pydlutils.bspline as pb
+    k = case['k']
+    x, y, w = make_data(case)
+    statuses = []
+    orig_fit = pb.bspline.fit
+
+    def recording_fit(self, *a, **kw):      # observation only: the status codes iterfit sees (their meaning is C09's subject)
+        r = orig_fit(self, *a, **kw)
+        statuses.append(r[0] if isinstance(r, tuple) else None)
+        return r
+    pb.bspline.fit = recording_fit
+    try:
+        sset, mask, modified = call_iterfit(case)
+    except Exception as e:
+        return [('iterfit:gap:exception:%s@%s' % (type(e).__name__, where_raised(e.__traceback__)), repr(e))], 'bad:exception', True, None
+    finally:
+        pb.bspline.fit = orig_fit
+    bad = []
+    if mask.shape != x.shape or mask.dtype != bool:
+        return [('iterfit:mask-shape', '%r' % (mask,))], 'bad:mask-shape', True, None
+    if np.any(mask[w <= 0]):
+        bad.append(('iterfit:mask-true-at-nonpositive-invvar:data-gap', 'invvar %s mask %s' % (w.tolist(), mask.tolist())))
+    if modified:
+        bad.append(('iterfit:input-modified', ''))
+    if statuses and not (isinstance(statuses[-1], (int, np.integer)) and int(statuses[-1]) == 0):
+        return bad, 'skip', False, ('gap: the iteration limit was reached right after a failed fit (status %s) - '
+                                    'the statement does not say what curve is returned then' % (statuses[-1],))
+    bm = np.asarray(sset.mask, dtype=bool)
+    ts = np.asarray(sset.breakpoints, dtype=np.float64)[bm]
+    ndrop = int((~bm).sum())
+    good = w > 0
+    M = mask & good
+    if len(ts) < 2 * k:
+        return bad, 'skip', False, 'gap: fewer than 2*order breakpoints survive'
+    a, b = ts[k - 1], ts[len(ts) - k]
+    A = _bsp.design_for_fit(ts, k, np.clip(x, a, b), 'left')
+    xs = np.sort(x[good])
+    grid = np.concatenate([xs, (xs[:-1] + xs[1:]) / 2.0])
+    grid = np.sort(grid[(grid >= a) & (grid <= b)])
+    B = _bsp.design_for_fit(ts, k, grid, 'left')
+    try:
+        got = curve_of(sset, grid)
+    except Exception as e:
+        bad.append(('iterfit:gap:returned-spline-not-evaluable:%s@%s' % (type(e).__name__, where_raised(e.__traceback__)), repr(e)))
+        return bad, 'bad:not-evaluable', True, None
+    scale = max(1.0, float(np.max(np.abs(y[good]))))
+    R = np.nonzero(good & ~M)[0]
+    exhaustive = len(R) <= 10
+    if exhaustive:
+        subsets = list(itertools.chain.from_iterable(itertools.combinations(R.tolist(), r) for r in range(len(R) + 1)))
+    else:
+        subsets = [(), tuple(R.tolist())]
+    usable, ok, best = 0, False, np.inf
+    for S in subsets:
+        Mp = M.copy()
+        Mp[list(S)] = True
+        c, rank, cond = _bsp.wlsq(A, y, np.where(Mp, w, 0.0))
+        if rank < A.shape[1] or not cond <= COND_MAX:
+            if not len(S):
+                break       # the returned mask itself leaves no unique least-squares spline: nothing decidable
+            continue
+        if len(S):
+            newmask, near = _reject(A, c, y, w, Mp, case['upper'], case['lower'])
+            if near:
+                continue
+            if not np.array_equal(newmask, M):
+                usable += 1
+                continue
+        usable += 1
+        d = float(np.max(np.abs(got - B.dot(c))))
+        best = min(best, d)
+        if d <= (1e-9 + 1e-13 * cond * cond) * scale:
+            ok = True
+            break
+    if not usable:
+        return bad, 'skip', False, 'gap: least squares on the surviving breakpoints is rank deficient or ill conditioned'
+    if not ok and not exhaustive:
+        return bad, 'skip', False, 'gap: more than 10 rejected points - predecessor masks not enumerated'
+    if not ok:
+        bad.append(('iterfit:gap:curve!=lstsq-on-surviving-breakpoints',
+                    'maxiter %d: %d breakpoint(s) dropped (mask %s), returned point mask %s, closest candidate differs by %.3g'
+                    % (case['maxiter'], ndrop, bm.astype(int).tolist(), mask.astype(int).tolist(), best)))
+    nfail = sum(1 for st in statuses if st != 0)
+    out = 'ok:gap:drop%d:failedfits%d:rej%d' % (ndrop, nfail, len(R)) if not bad else 'bad:' + bad[0][0]
+    return bad, out, True, None
 
 
 def m0_shape(base):
@@ -265,7 +380,9 @@ def check_weights(case):
 
 # ------------------------------------------------------------------ enumeration
 KNOTS7 = [['nbkpts', 2], ['nbkpts', 3], ['bkspace', 2.5]]
-KNOTS12 = [['nbkpts', 2], ['nbkpts', 3], ['bkspace', 4.0]]
+KNOTS12 = [['nbkpts', 2], ['nbkpts', 3], ['bkspace', 4.0], ['nbkpts', 8]]    # nbkpts=8: intervals holding exactly one point
+KNOTSTIE = [['nbkpts', 2], ['nbkpts', 3]]
+KNOTSGAP = [['bkspace', 3.0], ['bkspace', 2.4], ['nbkpts', 10]]
 MAGS = (6.0, -6.0, 50.0, -50.0)
 
 
@@ -275,7 +392,7 @@ def outlier_menu(n, T):
         for a in MAGS:
             m.append([[p, a]])
     for p, q in itertools.combinations(range(n), 2):
-        for a, b in (itertools.product(MAGS, MAGS) if (T and n <= 7) else ((6.0, -50.0), (50.0, 50.0), (-6.0, 6.0), (-50.0, 6.0))):
+        for a, b in (itertools.product(MAGS, MAGS) if (T and n <= 7) else ((6.0, -50.0), (50.0, 50.0), (-6.0, 6.0), (-50.0, 6.0)) if T else ((6.0, -50.0), (50.0, 50.0))):
             m.append([[p, a], [q, b]])
     return m
 
@@ -297,6 +414,8 @@ def order_configs(T):
             c.append({'n': 7, 'k': k, 'knots': kn, 'zero': [], 'out': [], 'ivpat': 0, 'upper': 5, 'lower': 5, 'maxiter': 0})
         c.append({'n': 7, 'k': k, 'knots': kn, 'zero': [3], 'out': [[1, 12.0]], 'ivpat': 0, 'upper': 3, 'lower': 5, 'maxiter': 10})
         c.append({'n': 7, 'k': k, 'knots': kn, 'zero': [0, 6], 'out': [[3, -12.0]], 'ivpat': 0, 'upper': 5, 'lower': 5, 'maxiter': 2})
+        if k == 2:
+            c.append({'n': 7, 'k': 2, 'knots': ['nbkpts', 5], 'zero': [], 'out': [[1, 12.0]], 'ivpat': 0, 'upper': 3, 'lower': 5, 'maxiter': 10})
         if T:
             c.append({'n': 7, 'k': k, 'knots': kn, 'zero': [0], 'out': [[2, -20.0], [5, 6.0]], 'ivpat': 0, 'upper': 5, 'lower': 5, 'maxiter': 1})
             c.append({'n': 7, 'k': k, 'knots': kn, 'zero': [], 'out': [[2, -20.0], [5, 6.0]], 'ivpat': 0, 'upper': 5, 'lower': 5, 'maxiter': 10})
@@ -328,9 +447,12 @@ def tasks(tier):
             for m in (0, 2, 10):
                 t.append({'part': 'O12', 'k': k, 'knots': kn, 'maxiter': m, 'tier': tier})
     thr = [(5, 5), (3, 5), (3, 3)] if T else [(5, 5), (3, 5)]
+    thr12 = thr[:2]
     for k in (2, 3, 4):
         for kn in KNOTS12:
-            for (up, lo) in thr:
+            if kn == ['nbkpts', 8] and k == 4:
+                continue            # 10 coefficients on 12 points: every rejection leaves an ill-posed refit
+            for (up, lo) in thr12:
                 for ivpat in (0, 1):
                     if T and (ivpat == 0 or (up, lo) == (5, 5)):
                         for zfirst in [None] + list(range(12)):
@@ -342,6 +464,24 @@ def tasks(tier):
             for (up, lo) in thr:
                 for zfirst in [None] + list(range(7)):
                     t.append({'part': 'P', 'n': 7, 'k': k, 'knots': ['nbkpts', 2], 'upper': up, 'lower': lo, 'ivpat': 0, 'zfirst': zfirst, 'tier': tier})
+        for (up, lo) in thr:
+            for zfirst in [None] + list(range(7)):
+                t.append({'part': 'P', 'n': 7, 'k': 2, 'knots': ['nbkpts', 5], 'upper': up, 'lower': lo, 'ivpat': 0, 'zfirst': zfirst, 'tier': tier})
+    # tied abscissae: procedure layer and order layer
+    for k in (2, 3):
+        for kn in KNOTSTIE:
+            for (up, lo) in thr12:
+                if T:
+                    for zfirst in [None] + list(range(12)):
+                        t.append({'part': 'P', 'n': 12, 'xset': 'tie', 'k': k, 'knots': kn, 'upper': up, 'lower': lo, 'ivpat': (k + up) % 2, 'zfirst': zfirst, 'tier': tier})
+                else:
+                    t.append({'part': 'P', 'n': 12, 'xset': 'tie', 'k': k, 'knots': kn, 'upper': up, 'lower': lo, 'ivpat': (k + up) % 2, 'tier': tier})
+            for m in (0, 2, 10):
+                t.append({'part': 'O12', 'xset': 'tie', 'k': k, 'knots': kn, 'maxiter': m, 'tier': tier})
+    # coverage hole: breakpoints dropped, refit on the surviving ones
+    for k in (2, 3, 4):
+        for kn in KNOTSGAP:
+            t.append({'part': 'G', 'k': k, 'knots': kn, 'tier': tier})
     return t
 
 
@@ -386,12 +526,37 @@ def run_task(task):
             _emit(acc, case, bad, 'ok:order:m%d' % cfg['maxiter'] if not bad else 'bad:' + bad[0][0], perm != list(range(7)), sample=False)
         acc.sample(dict(cfg, perm=[task['first']] + [i for i in range(7) if i != task['first']]))
         return acc
+    if part == 'G':
+        n = 16
+        zeros = [[], [7], [8], [0], [7, 8]] + ([[3], [12], [6, 7], [15]] if T else [])
+        outs = [[]] + [[[p, a]] for p in ((2, 7, 8, 12) if not T else range(n)) for a in (50.0, -12.0)]
+        for zero in zeros:
+            for out in outs:
+                if len(out) and out[0][0] in zero:
+                    continue
+                for m in ((2, 10) if not T else (1, 2, 3, 10)):
+                    for (up, lo) in ([(5, 5)] if not T else [(5, 5), (3, 5)]):
+                        cfg = {'part': 'G', 'n': n, 'xset': 'gap', 'k': task['k'], 'knots': task['knots'], 'zero': zero, 'out': out,
+                               'ivpat': (len(zero) + m) % 2, 'upper': up, 'lower': lo, 'maxiter': m}
+                        bad, out_label, nt, skip = check_gap(cfg)
+                        _emit(acc, cfg, bad, out_label, nt, skip)
+                        if skip or bad or not ((T or zero in ([], [7, 8])) and (not out or out[0][0] in ((2, 7, 8, 12) if T else (7, 12)))):
+                            continue
+                        base = None
+                        ocfg = dict(cfg, part='O')
+                        for perm in perms12(n):
+                            case = dict(ocfg, perm=perm)
+                            bad, base = check_order(ocfg, perm, base)
+                            _emit(acc, case, bad, 'ok:order-gap:m%d' % m if not bad else 'bad:' + bad[0][0], True, sample=False)
+        return acc
     if part == 'O12':
         n = 12
-        for zero in [[]] + [[p] for p in (range(n) if T else (0, 5, 11))]:
+        for zero in [[]] + [[p] for p in (range(n) if T else (0, 4, 5, 11))]:
             for out in [[]] + [[[p, a]] for p in (range(n) if T else (0, 4, 11)) for a in (50.0, -6.0)]:
                 cfg = {'part': 'O', 'n': n, 'k': task['k'], 'knots': task['knots'], 'zero': zero, 'out': out, 'ivpat': (len(zero) + len(out)) % 2,
                        'upper': 5, 'lower': 3, 'maxiter': task['maxiter']}
+                if task.get('xset'):
+                    cfg['xset'] = task['xset']
                 if len(zero) and len(out) and zero[0] == out[0][0]:
                     continue
                 base = None
@@ -411,9 +576,11 @@ def run_task(task):
         zs = [z for z in zs if (z[0] if z else None) == task['zfirst']]
     for zero in zs:
         for out in outlier_menu(n, T):
-            for m in (0, 1, 2, 10):
+            for m in ((0, 1, 2, 10) if T else (0, 2, 10)):
                 case = {'part': 'P', 'n': n, 'k': task['k'], 'knots': task['knots'], 'zero': zero, 'out': out, 'ivpat': task['ivpat'],
                         'upper': task['upper'], 'lower': task['lower'], 'maxiter': m}
+                if task.get('xset'):
+                    case['xset'] = task['xset']
                 bad, out_label, nt, skip = check_procedure(case)
                 _emit(acc, case, bad, out_label, nt, skip)
     return acc
@@ -425,4 +592,6 @@ def replay(case):
     if case['part'] == 'O':
         cfg = {k: v for k, v in case.items() if k != 'perm'}
         return check_order(cfg, case['perm'])[0]
+    if case['part'] == 'G':
+        return check_gap(case)[0]
     return check_procedure(case)[0]
